@@ -155,8 +155,10 @@ func (NetH) Gen(prop string, seed uint64, tier string) *hx.Case {
 					switch r.Intn(6) {
 					case 4, 5:
 						slow("block", "blk-rule")
-					case 0, 1:
+					case 0:
 						slow("block", "blk-planned")
+					case 1:
+						slow("block", []string{"blk-planned", "blk-malleated"}[r.Intn(2)])
 					case 2:
 						slow("blocktxn", []string{"bt-valid", "bt-none", "bt-wrong"}[r.Intn(3)])
 					default:
@@ -712,6 +714,26 @@ func (n *netRun) convPayload(m *NetMsg, r *hx.Rng) (pl []byte, ok bool) {
 		}
 		delete(n.plans, p)
 		return cp.blk.Bytes(), true
+	case "blk-malleated":
+		// the planned block with one byte of witness data changed: header, txids and merkle root are those of the
+		// valid block, the witness commitment does not match any more (anybody relaying the block can do this)
+		cp := n.plan(p, r)
+		if cp == nil {
+			return nil, false
+		}
+		raw := append([]byte{}, cp.blk.Bytes()...)
+		cb := cp.blk.Txs[0]
+		if !cb.HasWitness() || len(cb.In[0].Wit) == 0 || len(cb.In[0].Wit[0]) != 32 {
+			return raw, true
+		}
+		cbRaw := cb.Bytes(true)
+		at := bytes.Index(raw, cbRaw)
+		if at < 0 {
+			return raw, true
+		}
+		raw[at+len(cbRaw)-4-1-r.Intn(32)] ^= 0x01 // a byte of the 32-byte nonce in front of the lock time
+		n.out.Probe("witness_malleated_copy_of_a_valid_block_sent", 1)
+		return raw, true
 	case "blk-rule":
 		// a well-formed block that breaks one header / structure / commitment rule (C05's catalogue)
 		cp := n.plan(p, r)
